@@ -94,7 +94,7 @@ Proof.
     pose proof (Forall_inv Hbl) as (Hbw & Hb). pose proof (Forall_inv_tail Hbl) as Hbl'.
     assert (E2 : StParser.skip token tok_class (rflat_wbs (WB token bw b :: bl') ++ tail) = rflat_wbs (WB token [] b :: bl') ++ tail).
     { unfold flat_wbs. cbn [map List.concat flat_wb app]. rewrite <- !app_assoc.
-      rewrite (skip_app_triv token tok_class bw _ Hbw). apply (flat_b_skip token tok_class b _ Hb). }
+      rewrite (skip_app_triv token tok_class bw _ Hbw). apply (flat_bk_skip token tok_class b _ Hb). }
     change (st_skip (rflat_wbs (WB token bw b :: bl') ++ tail)) with (StParser.skip token tok_class (rflat_wbs (WB token bw b :: bl') ++ tail)).
     rewrite E2.
     assert (Hbl0 : Forall rwf_wb (WB token [] b :: bl')) by (constructor; [split; [constructor | exact Hb] | exact Hbl']).
